@@ -90,11 +90,11 @@ theorem never_ok_of_another_operation (t : Tables) (reqOp : Nat) (rt : RoundTrip
     exact hp rfl
 
 /-- non-vacuity: a conforming answer is accepted. -/
-example : exec stdTables 0x12 true
+example : exec pinnedTables 0x12 true
     (.msg 1 [{ op := 0x12, status := 0, reason := 0, msg := [], payload := some (.resp 0x12) }]) =
     .ok (.resp 0x12) := by decide
 
-example : WireShaped registeredOps
+example : WireShaped pinnedOps
     (.msg 1 [{ op := 0x12, status := 0, reason := 0, msg := [], payload := some (.resp 0x12) }]) := by
   intro bi hbi p hp
   simp only [List.mem_cons, List.not_mem_nil, or_false] at hbi
@@ -158,13 +158,13 @@ theorem failed_item_error_determines (t : Tables) (hst : NameInj t.status) (hre 
 /-- the registries of the current tree have no repeated name. -/
 theorem std_tables_injective :
     NameInj stdTables.status ∧ NameInj stdTables.reasons ∧ NameInj stdTables.ops :=
-  ⟨statusNames_inj, reasonNames_inj, operationNames_inj⟩
+  ⟨liveStatus_inj, liveReasons_inj, liveOps_inj⟩
 
 /-- unknown enumeration values are rendered in hex, known ones by name. -/
-example : request stdTables 0x12 (.msg 1 [{ op := 0x12, status := 7, reason := 0x99, msg := [104, 105], payload := none }]) =
+example : request pinnedTables 0x12 (.msg 1 [{ op := 0x12, status := 7, reason := 0x99, msg := [104, 105], payload := none }]) =
     .err (.item (.name 4711737631466157157) (.hex 7) (.hex 0x99) [104, 105]) := by decide +kernel
 
-example : request stdTables 0x12 (.msg 1 [{ op := 0, status := 1, reason := 1, msg := [], payload := none }]) =
+example : request pinnedTables 0x12 (.msg 1 [{ op := 0, status := 1, reason := 1, msg := [], payload := none }]) =
     .err (.item (.hex 0) (.name 412471119143380974025018302853309796) (.name 22733120087395224772922404452) []) := by
   decide +kernel
 
@@ -267,17 +267,17 @@ theorem batch_operations (t : Tables) (reqOps : List Nat) (rt : RoundTrip) (ps :
   exact conforms_operations items reqOps hconf hall
 
 /-- non-vacuity: a conforming two-item answer is accepted. -/
-example : batchUnwrap stdTables [0x12, 0x14]
+example : batchUnwrap pinnedTables [0x12, 0x14]
     (.msg 2 [{ op := 0x12, status := 0, reason := 0, msg := [], payload := some (.resp 0x12) },
              { op := 0x14, status := 0, reason := 0, msg := [], payload := some (.resp 0x14) }]) =
     .ok ([some (.resp 0x12), some (.resp 0x14)], []) := by decide
 
 /-- the two former counterexamples are now refused; a failed item next to the violation is still reported. -/
-example : batchUnwrap stdTables [0x12]
+example : batchUnwrap pinnedTables [0x12]
     (.msg 1 [{ op := 0x12, status := 0, reason := 0, msg := [], payload := none }]) =
     .err (.joined [.missingAt 0]) := by decide
 
-example : batchUnwrap stdTables [0x12, 0x14]
+example : batchUnwrap pinnedTables [0x12, 0x14]
     (.msg 2 [{ op := 0x12, status := 1, reason := 0x99, msg := [104], payload := none },
              { op := 0xA, status := 0, reason := 0, msg := [], payload := some (.resp 0xA) }]) =
     .err (.joined [.item (.name 4711737631466157157) (.name 412471119143380974025018302853309796) (.hex 0x99) [104],
